@@ -282,6 +282,10 @@ impl Harness for C13 {
             if self.kind != Ck::Publish && live_count(&robs) == 0 && src_live {
               src_live = false;
             }
+          } else if src_live && !matches!(e, Ev::Next(_)) {
+            // a connection made after the shared subject had terminated (publish re-connected): the source's
+            // terminal ends that connection too, nothing is observable downstream
+            src_live = false;
           }
         }
       }
